@@ -261,7 +261,9 @@ pub fn check_plan_from_assets(w: &mut World, i: usize, assets: &Assets) {
                 b1.map(|b| in_wit(&b)).unwrap_or(false) || sat_max.tap_key.get(k).map(|s| in_wit(&s.to_vec())).unwrap_or(false) || sat_max.tap_script.iter().any(|((kk, _), s)| kk == k && in_wit(&s.to_vec()))
             })
             .collect();
-        if let Some(k) = used.first() {
+        // (one key under two names: the other name's signature is a signature of the same key)
+        let twins = env.uni.has_twins(&env.inputs[i].key_ids, matches!(kind, OutKind::TrKey | OutKind::TrScript));
+        if let Some(k) = used.first().filter(|_| !twins) {
             let mut partial = sat_max.clone();
             partial.ecdsa.remove(k);
             partial.tap_key.remove(k);
